@@ -250,7 +250,14 @@ impl AsyncWrite for UtpStreamWriteHalf {
             return Poll::Ready(Ok(()));
         }
 
-        g.writer_shutdown = true;
+        if !g.writer_shutdown {
+            g.writer_shutdown = true;
+            // The dispatcher may be parked on an idle connection: it must learn about the
+            // shutdown to send the FIN (same as mark_writer_dropped).
+            if let Some(w) = g.dispatcher_waker.take() {
+                w.wake();
+            }
+        }
         update_optional_waker(&mut g.writer_waker, cx);
         Poll::Pending
     }
